@@ -339,8 +339,18 @@ def r01_234(chk, cr):
     dval = setcall[0].extra["args"][2] if setcall else store[0].value
     items = dict_items(dval)
     chk.need(items, f"{q}: the result is not a literal dictionary")
-    d = {k: v for k, _, v in items}
-    mask = P.atom([k for k in ev.defs if k[1] == "mask"][-1]) if "mask" in defs else None
+    # a kept-opaque local that is rebound (sym = sym[mask]) shows up as a later version: read through to its definition
+    later = {k: v for k, v in ev.defs.items() if k[0] == "local" and len(k) > 2 and isinstance(k[2], int) and k[2] > 0 and k[1] in ("sym", "uc_pos")}
+
+    def through(v):
+        for _ in range(4):
+            hit = {a: later[a] for a in find_atoms(v, lambda a: a in later)}
+            if not hit:
+                break
+            v = v.subs(hit)
+        return v
+    d = {k: through(v) for k, _, v in items}
+    mask = P.atom([k for k in ev.defs if k[1] == "mask"][0]) if "mask" in defs else None
     trans = P.atom([k for k in ev.defs if k[1] == "translated"][-1]) if "translated" in defs else None
     chk.need(mask is not None and trans is not None, f"{q}: mask / wrapped positions not found")
     nsym = P.atom([k for k in ev.defs if k[1] == "nsymops"][-1])
